@@ -1,6 +1,10 @@
 //! Deterministic simulator for allsorts: storage-fault / history / reader simulation.
 
 mod alloc;
+#[allow(dead_code)]
+mod bitmap_build;
+#[allow(dead_code)]
+mod morx_build;
 mod disk;
 mod exec;
 mod fields;
